@@ -25,6 +25,7 @@ func init() {
 func runC10(c *Ctx) {
 	p := c.P
 	s := p.Selectors()
+	s.checkErrorsNotSwallowed(c, "errors-not-swallowed", inPkgs("health"), "a probe that cannot be set up or run would count as working")
 	probeT := p.Named("health", "Probe")
 
 	// ------------------------------------------------------------------ (1)
